@@ -192,10 +192,11 @@ class GenInh(Gen):
             if not free:
                 return None
             n = rng.choice(free)
-            self.sigs[n] = self.sigs["x"]          # (the formulas are generated for x's signature)
-            self.rank[n] = self.rank["x"]
+            if n not in self.sigs:                 # (a signature, once given, is shared by all namesakes)
+                self.sigs[n] = [["i", 0, 0]]
+                self.rank[n] = 0
             mk = lambda sp_: {"op": "new_cells", "s": list(sp_), "c": n,
-                              "rec": {"f": self.formula(sp_, "x"), "cached": True, "an": 0}}
+                              "rec": {"f": self.formula(sp_, n), "cached": True, "an": 0}}
             ref = {"op": "set_ref", "s": list(q2), "n": n, "v": ["int", 8, [], ""], "mode": "auto", "via": "set_ref"}
             return rng.choice([[mk(q1), ref, dict(mk(p), expect="clash-in-other-sub")],
                                [ref, mk(q1), dict(mk(p), expect="clash-in-other-sub")]])
@@ -426,7 +427,7 @@ class GenInh(Gen):
                     return {"op": "rename_cells", "s": list(p), "c": rng.choice(own), "c2": nm,
                             "expect": "clash-in-sub"}
                 return {"op": "new_cells", "s": list(p), "c": nm,
-                        "rec": {"f": self.formula(p, "x"), "cached": True, "an": 0},
+                        "rec": {"f": self.formula(p, nm), "cached": True, "an": 0},
                         "expect": "clash-in-sub"}
             if k == 15:   # reference named like a cells / child of a sub space
                 taken = [n for n in list(m["cells"][tp(q)]) + self.children(q) if n not in mine]
@@ -454,7 +455,7 @@ class GenInh(Gen):
             self.sigs.setdefault(nm, [["i", 0, 0]])
             self.rank.setdefault(nm, 0)
             return {"op": "new_cells", "s": list(p), "c": nm,
-                    "rec": {"f": self.formula(p, "x"), "cached": True, "an": 0}, "expect": "clash"}
+                    "rec": {"f": self.formula(p, nm), "cached": True, "an": 0}, "expect": "clash"}
         if k == 3:   # reference named like a cells / child space
             taken = self.enames(p, "cells") + self.children(p)
             if not taken:
